@@ -212,7 +212,7 @@ func c18Peer(c *ev.Ctx, r *rand.Rand, caseN int) (string, map[string]interface{}
 
 func c18Base(c *ev.Ctx, r *rand.Rand, caseN int) (string, map[string]interface{}) {
 	var mu sync.Mutex
-	session := ""            // peer of the running session
+	session := "" // peer of the running session
 	unregistering := map[string]bool{}
 	unregistered := map[string]bool{} // UnregisterPeer returned and the peer was not registered again
 	terminated := false
